@@ -22,6 +22,8 @@ package binpatch
 import (
 	"os"
 	"syscall"
+
+	"golang.org/x/sys/unix"
 )
 
 func hasLinks(info os.FileInfo) bool {
@@ -30,4 +32,10 @@ func hasLinks(info os.FileInfo) bool {
 		return false
 	}
 	return stat.Nlink != 1
+}
+
+// writable reports whether the open file can be written through this handle
+func writable(f *os.File) bool {
+	flags, err := unix.FcntlInt(f.Fd(), unix.F_GETFL, 0)
+	return err == nil && flags&unix.O_ACCMODE != unix.O_RDONLY
 }
